@@ -129,6 +129,48 @@ func main() {
 		}
 		return
 	}
+	if *dump == "locks" {
+		ctx := &Ctx{P: p, R: r, Rep: newReport("dump", p), Tier: *tier}
+		lf := ctx.lockFacts()
+		fmt.Println("roots:", len(lf.Roots), lf.Roots)
+		fmt.Println("skipped:", lf.Skipped)
+		fmt.Println("problems:", lf.Problems)
+		byField := map[string][]Access{}
+		for _, a := range lf.Accesses {
+			byField[a.Field] = append(byField[a.Field], a)
+		}
+		var fields []string
+		for f := range byField {
+			fields = append(fields, f)
+		}
+		sort.Strings(fields)
+		for _, f := range fields {
+			fmt.Println(shortKey(f))
+			for _, a := range byField[f] {
+				rw := "R"
+				if a.Write {
+					rw = "W"
+				}
+				pv := ""
+				if a.Private {
+					pv = " private"
+				}
+				fmt.Printf("   %s %s %s%s  [%s]\n", rw, p.posOf(a.Pos), locksString(a.Locks), pv, a.Chain)
+			}
+		}
+		for _, o := range lf.Ops {
+			fmt.Printf("op %s %s %s extra=%s [%s]\n", o.Op, p.posOf(o.Pos), locksString(o.Locks), o.Extra, o.Chain)
+		}
+		seen := map[string]bool{}
+		for _, e := range lf.Edges {
+			k := shortKey(e.From) + " -> " + shortKey(e.To)
+			if !seen[k] {
+				seen[k] = true
+				fmt.Println("edge", k, p.posOf(e.Pos), e.Chain)
+			}
+		}
+		return
+	}
 	if *dump == "lifecycle" {
 		ctx := &Ctx{P: p, R: r, Rep: newReport("dump", p), Tier: *tier}
 		for _, l := range ctx.lifecycle().dump() {
